@@ -601,6 +601,14 @@ def crop_u32(rep, prog, rule):
                                        % (pos, size, img))
                     if ls[0] == "call" and ls[1] == "checked_add":
                         verdict = verdict or ("unk", "checked_add form")
+                    if ls[0] == "call" and ls[1] == "saturating_add" and len(ls[2]) == 2 and o == "Le" \
+                            and is_param(rs, img) and (
+                            (is_param(ls[2][0], pos) and is_param(ls[2][1], size)) or
+                            (is_param(ls[2][1], pos) and is_param(ls[2][0], size))) and verdict is None:
+                        verdict = ("saturated", "%s.saturating_add(%s) <= %s is the bound: a sum beyond "
+                                   "u32::MAX is clamped to u32::MAX and then equals an image size of "
+                                   "u32::MAX, so the box %s = 10, %s = u32::MAX is accepted for such an image "
+                                   "(a custom view; rows / columns past the end)" % (pos, size, img, pos, size))
                     # wrong axis
                     if is_param(ls, size) and rs[0] == "bin" and rs[1] == "Sub" and \
                             is_param(rs[3], pos) and not is_param(rs[2], img) and verdict is None:
